@@ -29,6 +29,9 @@ pub struct DevCase {
 }
 
 pub const PREFIX: usize = 14;
+/// measured over a run of the check: housekeeping rounds executed and datagram hand-over decisions taken
+pub static TICKS: std::sync::atomic::AtomicU64 = std::sync::atomic::AtomicU64::new(0);
+pub static HANDOVERS: std::sync::atomic::AtomicU64 = std::sync::atomic::AtomicU64::new(0);
 pub fn menu() -> Vec<Dev> {
     vec![Dev::Drop, Dev::Dup, Dev::Hold(1), Dev::Hold(2), Dev::Hold(5), Dev::Hold(61), Dev::Hold(121), Dev::Hold(130), Dev::Partition]
 }
@@ -74,6 +77,7 @@ pub fn run_dev(c: &DevCase) -> CaseResult {
         while let Some(w) = net.queue.pop_front() {
             let p = *point;
             *point += 1;
+            HANDOVERS.fetch_add(1, std::sync::atomic::Ordering::Relaxed);
             if now < *partition_until {
                 continue;
             }
@@ -121,6 +125,7 @@ pub fn run_dev(c: &DevCase) -> CaseResult {
     let mut reliable_left: Option<i64> = None;
     loop {
         net.tick();
+        TICKS.fetch_add(1, std::sync::atomic::Ordering::Relaxed);
         pump(&mut net, &mut point, &mut held, &mut partition_until, &mut last_effect)?;
         no_self(&net)?;
         t += 1;
@@ -214,8 +219,9 @@ pub fn run_node_level(ctx: &Ctx) {
         f.extra.insert("executions_b1".into(), serde_json::json!(b1));
         f.extra.insert("executions_b2".into(), serde_json::json!(b2));
         f.extra.insert("completed_bound".into(), serde_json::json!(2));
+        // states = executions (each ends in one checked end state), transitions = measured hand-over decisions + housekeeping rounds
         f.states = st.evaluations;
-        f.transitions = st.evaluations * 430;
+        f.transitions = TICKS.load(std::sync::atomic::Ordering::Relaxed) + HANDOVERS.load(std::sync::atomic::Ordering::Relaxed);
     }
 }
 
